@@ -228,6 +228,9 @@ func (e *Enc) extCall(ins ssa.Instruction, name string, callee *ssa.Function, si
 		trust("total; true implies equal lengths")
 		rs := e.freshResults(sig, h)
 		e.assert(implies(reach, implies(rs[0].T, app("=", app("slen", args[0].T), app("slen", args[1].T)))))
+		if e.token {
+			e.assert(implies(reach, app("=", rs[0].T, app("=", e.tokBytes(h, args[0].T), e.tokBytes(h, args[1].T)))))
+		}
 		e.setResult(res, rs)
 		return true
 	case "(*sync.RWMutex).Lock", "(*sync.RWMutex).RLock", "(*sync.RWMutex).Unlock", "(*sync.RWMutex).RUnlock", "(*sync.Mutex).Lock", "(*sync.Mutex).Unlock":
